@@ -44,6 +44,16 @@ func runC14(c *core.Check) {
 		r.ConstSubst = map[string]string{"Alphabet": "Core"}
 		streamTLC(c, r, func(st core.State) { c14.Handle(c, st) })
 	}
+	// longer strings over the grapheme-cluster classes only (emoji / joiner / Extend sequences)
+	{
+		ln := "5"
+		if c.Tier == "thorough" {
+			ln = "7"
+		}
+		r := core.TLCRun{Module: "MC_C14", Consts: map[string]string{"MaxN": ln, "StartKind": "\"initial\""}, Timeout: minutes(30)}
+		r.ConstSubst = map[string]string{"Alphabet": "Clusters"}
+		streamTLC(c, r, func(st core.State) { c14.Handle(c, st) })
+	}
 	// range fidelity on grammar-derived sources
 	e1c := map[string]string{"MaxD": "1", "Level2": "\"core\""}
 	if c.Tier == "thorough" {
